@@ -12,7 +12,7 @@ use std::hash::{Hash, Hasher};
 use std::sync::Mutex;
 use unic_locale::Locale;
 
-pub const RULE: &str = "Domain: pools of reachable values (G8) in which logical values are reached along several routes (different spellings, from_parts with permuted/duplicated variants, add-then-remove histories, set_variants(&[]) vs never set, remove_keyword vs never added, clear_*): the values are collected from the C04 sources, bucketed, and all pairs inside pools of 300 | 1500 values plus sampled triples are compared, for Locale, LanguageIdentifier, ExtensionsMap, the three extension lists and the subtag types. Oracle: x == y <=> x.to_string() == y.to_string(); equal => same DefaultHasher digest and cmp == Equal; cmp antisymmetric, transitive on triples; for LanguageIdentifier cmp equals the field-wise model order (language with und first, then script, region, variant list, absent first); for Locale the id dominates; value == \"text\" <=> text is the canonical string (probed with the canonical string, case variants, '_' variants, prefixes). Cold start: 1200 | 6000 pairs of identifiers built through the raw constructors are compared (==, cmp, hash, has_variant, then to_string and == &str) as the first library calls of a fresh child process each, against the string clause and against the same calls in the warm process. Non-trivial pair = two different routes reaching the same string, or values differing in exactly one field. Distinct pairs counted through a hash set over (route case, route case).";
+pub const RULE: &str = "Domain: pools of reachable values (G8) in which logical values are reached along several routes (different spellings, from_parts with permuted/duplicated variants, add-then-remove histories, set_variants(&[]) vs never set, remove_keyword vs never added, clear_*): the values are collected from the C04 sources, bucketed, and all pairs inside pools of 300 | 1500 values plus sampled triples are compared, for Locale, LanguageIdentifier, ExtensionsMap, the three extension lists and the subtag types. Oracle: x == y <=> x.to_string() == y.to_string(); equal => same DefaultHasher digest and cmp == Equal; cmp antisymmetric, transitive on triples; for LanguageIdentifier cmp equals the field-wise model order (language with und first, then script, region, variant list, absent first); for Locale the id dominates; value == \"text\" <=> text is the canonical string (probed with the canonical string, case variants, '_' variants, prefixes). Every collected value is also paired with its boundary-shift twins (one character moved between two adjacent variants / private tags), its near twins (last character of one subtag changed) and - maximized / minimized CLDR keys - the re-parse of its printed form. Cold start: 1200 | 6000 pairs of identifiers built through the raw constructors are compared (==, cmp, hash, has_variant, then to_string and == &str) as the first library calls of a fresh child process each, against the string clause and against the same calls in the warm process. Non-trivial pair = two different routes reaching the same string, or values differing in exactly one field. Distinct pairs counted through a hash set over (route case, route case).";
 
 fn h<T: Hash>(t: &T) -> u64 {
     let mut s = DefaultHasher::new();
